@@ -180,6 +180,17 @@ func genConPlan(seed uint64, mode string) *ConPlan {
 			g.model[cc.Name] = g.model[cc.Name].Set(MItem{K: k, V: v.Bytes(), P: p})
 		}
 	}
+	// A collection no reader touches: the mutator re-registers it
+	// (SetCollection on an existing name: new handle, old one closed, same
+	// contents) while Flush, Snapshot and CopyTo walk the collection map.
+	churn := ""
+	if mode == "C05" && r.Bool(0.35) {
+		churn = conNamePool[perm[nc]] + "~"
+		cp.Setup = append(cp.Setup, Op{Kind: "setcoll", S: 0, C: churn})
+		for j := r.Range(1, 4); j > 0; j-- {
+			cp.Setup = append(cp.Setup, Op{Kind: "setitem", S: 0, C: churn, Key: []byte(fmt.Sprintf("c%d", j)), Val: g.value(), Prio: g.prio()})
+		}
+	}
 	if !mem {
 		switch r.Intn(4) {
 		case 0:
@@ -238,11 +249,23 @@ func genConPlan(seed uint64, mode string) *ConPlan {
 		mt := ConTask{Name: "m", Role: "mutator", Weight: wts[r.Intn(len(wts))]}
 		for i := r.Range(6, 36); i > 0; i-- {
 			mt.Ops = append(mt.Ops, g.mutation())
+			if churn != "" && r.Bool(0.12) {
+				if r.Bool(0.3) {
+					// remove it; the next setcoll re-creates it empty
+					mt.Ops = append(mt.Ops, ConOp{Kind: "rmcoll", C: churn})
+				} else {
+					mt.Ops = append(mt.Ops, ConOp{Kind: "setcoll", C: churn})
+				}
+			}
 		}
 		cp.Tasks = append(cp.Tasks, mt)
 		if !mem && r.Bool(0.85) {
 			ft := ConTask{Name: "f", Role: "flusher", Weight: wts[r.Intn(len(wts))]}
 			for i := r.Range(1, 5); i > 0; i-- {
+				if r.Bool(0.25) {
+					// Collection.Write: items and nodes without a root record
+					ft.Ops = append(ft.Ops, ConOp{Kind: "write", C: g.pickColl().Name})
+				}
 				ft.Ops = append(ft.Ops, ConOp{Kind: "flush"})
 			}
 			cp.Tasks = append(cp.Tasks, ft)
